@@ -11,6 +11,7 @@ mod locks;
 mod panics;
 mod placement;
 mod pool;
+mod sig;
 mod sim;
 mod times;
 mod watch;
@@ -43,6 +44,7 @@ fn main() {
         "times" => times::run(&args[2], &args[3]),
         "locks" => locks::run(&args[2], &args[3]),
         "sim" => sim::run(&args[2], &args[3]),
+        "sig" => sig::run(&args[2], &args[3]),
         "selfcheck" => {
             // used by `check.py setup`: proves interposition is live
             events::open(&args[2]);
